@@ -148,6 +148,10 @@ def boundGen (numA denA numB denB : Int) : Option (Option Int) :=
 def cvpCondition (p : Int) (v : V2) : Option Elem :=
   if (v.x + v.y) % p = 2 then some ⟨2, ⟨v.x, v.y, v.x, v.y⟩⟩ else none
 
+/-- membership-oracle condition of the harness (`cond_eq` in drv_lll.c): true exactly on the vector `w` -/
+def eqCondition (w : V2) (v : V2) : Option Elem :=
+  if v = w then some ⟨1, ⟨v.x, v.y, 0, 0⟩⟩ else none
+
 /-- `quat_dim2_lattice_bound_and_condition` for a condition given as a function -/
 def boundAndCondition (cond : V2 → Option Elem) (q : Int) (x y : Int) (tmc : V2) (b : M2) (normBound : Int) :
     Option Elem :=
